@@ -50,8 +50,53 @@ def yflow(v):
     raise ValueError(f'not yaml-able: {v!r}')
 
 
-def emit_pipeline(groups):
+def step_mapping(st):
+    """a step written as a mapping -> [[key, pv]...] in the order the block form writes them."""
+    d = [['name', BODIES[st['body']][0]]]
+    if st.get('in') is not None:
+        d.append(['in', {'d': st['in']}])
+    if 'foreach' in st:
+        d.append(['foreach', st['foreach']])
+    if st.get('while') is not None:
+        d.append(['while', {'d': [[k, st['while'][k]] for k in WHILE_KEYS if k in st['while']]}])
+    if st.get('retry') is not None:
+        d.append(['retry', {'d': [[k, st['retry'][k]] for k in RETRY_KEYS if k in st['retry']]}])
+    for key in ('run', 'skip', 'swallow', 'onError'):
+        if key in st:
+            d.append([key, st[key]])
+    return d
+
+
+def emit_pipeline_flow(groups):
+    """the whole pipeline on ONE line, flow style (a step can then start on line 1)."""
+    text = '{'
+    pos = {}
+    first = True
+    for gname, steps in groups:
+        text += '' if first else ', '
+        first = False
+        if gname == 'context_parser':
+            text += 'context_parser: vparser'
+            continue
+        if steps is None:
+            text += f'{gname}: null'
+            continue
+        text += f'{gname}: ['
+        for idx, st in enumerate(steps):
+            text += ', ' if idx else ''
+            if st.get('simple'):
+                text += BODIES[st['body']][0]
+                continue
+            pos[(gname, idx)] = (1, len(text) + 1)
+            text += yflow({'d': step_mapping(st)})
+        text += ']'
+    return text + '}\n', pos
+
+
+def emit_pipeline(groups, flow=False):
     """groups: [[name, [steps]|None]...] -> (yaml text, {(group, idx): (line, col)})."""
+    if flow:
+        return emit_pipeline_flow(groups)
     lines = []
     pos = {}
     for gname, steps in groups:
@@ -129,7 +174,7 @@ def coq_opt_key(d, k):
 def coq_lib(case):
     pipes = []
     for pname, groups in case['lib']:
-        _, pos = emit_pipeline(groups)
+        _, pos = emit_pipeline(groups, case.get('flow'))
         gs = []
         for gname, steps in groups:
             if steps is None:
@@ -206,7 +251,7 @@ def run_case(case, extra=None):
     pv.register_asts(case)
     canon = pv.Canon()
     canon.ids[id(vstate.MISSING)] = -1
-    texts = {name: emit_pipeline(groups)[0] for name, groups in case['lib']}
+    texts = {name: emit_pipeline(groups, case.get('flow'))[0] for name, groups in case['lib']}
     vstate.reset(texts, canon)
     loader_cache.clear_pipes()
 
